@@ -1200,6 +1200,20 @@ func c01Generate(r *rng, c *c05Chain, run *c05Runner, nblocks int) ([]c05Op, err
 			return g.ops, err
 		}
 	}
+	if r.chance(50) { // notary service: nodes designated, deposits; g.randomOp then sends NotaryAssisted transactions
+		g.notary = true
+		if err := emit(c05Op{T: "role", A: 2, K: r.intn(len(c.u.keys)), N: r.intn(3)}); err != nil {
+			return g.ops, err
+		}
+		for i := 0; i < 2+r.intn(3); i++ {
+			if err := emit(c05Op{T: "dep", F: pick(r, c05Signers), A: int64(5_0000_0000 + r.intn(20_0000_0000)), N: int(c.bc.BlockHeight()) + 10 + r.intn(30)}); err != nil {
+				return g.ops, err
+			}
+		}
+		if err := emit(c05Op{T: "blk"}); err != nil {
+			return g.ops, err
+		}
+	}
 	// voters of a key / elected committee members with votes, at the last block boundary
 	votersOf := func(k int) []int {
 		var l []int
